@@ -1,8 +1,8 @@
 package sim
 
 import (
-	"encoding/json"
 	"context"
+	"encoding/json"
 	"fmt"
 	"net/http/httptest"
 	"sort"
